@@ -120,6 +120,9 @@ def make_items():
         Item("gcallr", [("T", True)], [("n", ("int32",)), ("f", ("fn", A, ("int32",)))], ("string",), lambda c: "let y: %s = f(n); let z: %s = f(n + 1); %s + %s" % (c.ty(A), c.ty(A), c.sh(A, "y"), c.sh(A, "z"))),
         Item("grun2", [("T", False)], [("f", ("fn", A))], ("int32",), lambda c: "let _ = f(); let _ = f(); 2"),
         Item("gapp", [("T", False), ("U", False)], [("f", ("fn", B, A)), ("x", A)], B, lambda c: "f(x)"),
+        # a type parameter that occurs ONLY in the result type (no parameter mentions it)
+        Item("gnone", [("T", False)], [], ("Opt", A), lambda c: "None_"),
+        Item("gvnew", [("T", False)], [], ("Vec", A), lambda c: "vec_new()"),
         Item("Two.flip", [("T", False), ("U", False)], [("self", ("Two", A, B))], ("Two", B, A), lambda c: "Two { l: self.r, r: self.l }", method_of="Two"),
     ]
     return {i.name: i for i in items}
@@ -234,7 +237,7 @@ class Gen:
             cands = []
             for it in self.items.values():
                 s = match_ret(it.ret, t)
-                if s is not None and it.name not in ("grep", "gcount", "Box.tag", "gokr", "gerr", "gres", "gcallr", "grun2", "gapp"):
+                if s is not None and it.name not in ("grep", "gcount", "Box.tag", "gokr", "gerr", "gres", "gcallr", "grun2", "gapp", "gnone", "gvnew"):
                     cands.append((it, s))
             if cands:
                 it, s = r.choice(cands)
@@ -325,6 +328,22 @@ class Gen:
                 g = "int32_to_string(%s)" % gctx.call("gcount", [t], [a, "0"])
                 m = "int32_to_string(%s)" % mctx.call("gcount", [t], [a, "0"])
                 self.used.add("gcount")
+            elif k >= 0.76 and k < 0.86:
+                t = self.conc_type(1)
+                self.need_sh(t)
+                w = "o%d" % len(stmts_g)
+                if self.rng.random() < 0.6:
+                    stmts_g.append("    let %s: %s = %s;" % (w, ty_text(("Opt", t)), gctx.call("gnone", [t], [])))
+                    stmts_m.append("    let %s: %s = %s;" % (w, ty_text(("Opt", t)), mctx.call("gnone", [t], [])))
+                    g = gctx.call("gshowopt", [t], [w])
+                    m = mctx.call("gshowopt", [t], [w])
+                    self.used.update(["gnone", "gshowopt"])
+                else:
+                    stmts_g.append("    let %s: %s = %s;" % (w, ty_text(("Vec", t)), gctx.call("gvnew", [t], [])))
+                    stmts_m.append("    let %s: %s = %s;" % (w, ty_text(("Vec", t)), mctx.call("gvnew", [t], [])))
+                    g = "int32_to_string(%s)" % gctx.call("gcount", [t], [w, "0"])
+                    m = "int32_to_string(%s)" % mctx.call("gcount", [t], [w, "0"])
+                    self.used.update(["gvnew", "gcount"])
             else:
                 t = self.conc_type(2)
                 self.need_sh(t)
